@@ -168,7 +168,280 @@ def gen_arith():
     return out
 
 
-SECTIONS = {"Arith": gen_arith}
+def fn_body_any(text, name, anchor):
+    """like fn_body but tolerant of nested generic parameter lists."""
+    m = re.search(r"fn\s+" + re.escape(name) + r"\b", text)
+    if not m:
+        raise GenError("%s: fn %s not found" % (anchor, name))
+    i = text.index("{", m.end())
+    depth = 0
+    for j in range(i, len(text)):
+        if text[j] == "{":
+            depth += 1
+        elif text[j] == "}":
+            depth -= 1
+            if depth == 0:
+                return text[m.start():j + 1]
+    raise GenError("%s: fn %s unbalanced" % (anchor, name))
+
+
+def gen_huffman():
+    """C17: literal tables and thresholds of entropy_encode.rs and of the prefix-code
+    serialisers in brotli_bit_stream.rs."""
+    out = []
+    e = src("src/enc/entropy_encode.rs")
+    body = fn_body(e, "SortHuffmanTreeItems", "entropy_encode.rs")
+    out.append("Definition shell_gaps : list N := %s." % coq_list(static_array(body, "gaps", "SortHuffmanTreeItems")))
+    out.append("Definition sort_small_threshold : N := %d." % nums_in(body, r"if\s+n\s*<\s*" + LIT + r"\s*\{\s*for", "SortHuffmanTreeItems small threshold", 1)[0])
+    g0 = re.search(r"if\s+n\s*<\s*" + LIT + r"\s*\{\s*" + LIT + r"\s*\}\s*else\s*\{\s*" + LIT + r"\s*\}", body)
+    if not g0:
+        raise GenError("SortHuffmanTreeItems: first-gap selection not found")
+    out.append("Definition sort_gap_threshold : N := %d." % parse_num(g0.group(1), "gap threshold"))
+    out.append("Definition sort_gap_start_small : N := %d." % parse_num(g0.group(2), "gap start"))
+    out.append("Definition sort_gap_start_large : N := %d." % parse_num(g0.group(3), "gap start"))
+    body = fn_body(e, "BrotliReverseBits", "entropy_encode.rs")
+    out.append("Definition kLut : list N := %s." % coq_list(static_array(body, "kLut", "BrotliReverseBits")))
+    body = fn_body(e, "BrotliWriteHuffmanTree", "entropy_encode.rs")
+    out.append("Definition rle_min_length : N := %d." % nums_in(body, r"if\s+length\s*>\s*" + LIT, "BrotliWriteHuffmanTree length threshold", 1)[0])
+    out.append("Definition rle_initial_previous : N := %d." % nums_in(body, r"previous_value\s*:\s*u8\s*=\s*" + LIT, "BrotliWriteHuffmanTree initial previous value", 1)[0])
+    body = fn_body(e, "BrotliWriteHuffmanTreeRepetitions", "entropy_encode.rs")
+    out.append("Definition rep_nonzero_consts : list N := %s." % coq_list(nums_in(body, r"repetitions\s*(?:==|<)\s*" + LIT, "Repetitions thresholds", 3)
+               + nums_in(body, r"repetitions\.wrapping_sub\(" + LIT + r"\)", "Repetitions subs", 4)
+               + nums_in(body, r"=\s*" + LIT + r"\s*;\s*\n\s*extra_bits_data\[\*tree_size\]\s*=\s*\(repetitions", "Repetitions code", 1)
+               + nums_in(body, r"repetitions\s*&\s*" + LIT, "Repetitions mask", 1)
+               + nums_in(body, r"repetitions\s*>>=\s*" + LIT, "Repetitions shift", 1)))
+    body = fn_body(e, "BrotliWriteHuffmanTreeRepetitionsZeros", "entropy_encode.rs")
+    out.append("Definition rep_zero_consts : list N := %s." % coq_list(nums_in(body, r"repetitions\s*(?:==|<)\s*" + LIT, "RepetitionsZeros thresholds", 3)
+               + nums_in(body, r"repetitions\.wrapping_sub\(" + LIT + r"\)", "RepetitionsZeros subs", 3)
+               + nums_in(body, r"=\s*" + LIT + r"\s*;\s*\n\s*extra_bits_data\[\*tree_size\]\s*=\s*\(repetitions", "RepetitionsZeros code", 1)
+               + nums_in(body, r"repetitions\s*&\s*" + LIT, "RepetitionsZeros mask", 1)
+               + nums_in(body, r"repetitions\s*>>=\s*" + LIT, "RepetitionsZeros shift", 1)))
+    b = src("src/enc/brotli_bit_stream.rs")
+    body = fn_body(b, "BrotliStoreHuffmanTreeOfHuffmanTreeToBitMask", "brotli_bit_stream.rs")
+    for n in ("kStorageOrder", "kHuffmanBitLengthHuffmanCodeSymbols", "kHuffmanBitLengthHuffmanCodeBitLengths"):
+        out.append("Definition %s : list N := %s." % (n, coq_list(static_array(body, n, "StoreHuffmanTreeOfHuffmanTreeToBitMask"))))
+    body = fn_body(b, "StoreStaticCodeLengthCode", "brotli_bit_stream.rs")
+    m = re.search(r"BrotliWriteBits\(\s*" + LIT + r"\s*,\s*" + LIT, body)
+    if not m:
+        raise GenError("StoreStaticCodeLengthCode: constants not found")
+    out.append("Definition static_cl_code_nbits : N := %d." % parse_num(m.group(1), "StoreStaticCodeLengthCode"))
+    out.append("Definition static_cl_code_bits : N := %d." % parse_num(m.group(2), "StoreStaticCodeLengthCode"))
+    body = fn_body(b, "BrotliStoreHuffmanTree", "brotli_bit_stream.rs")
+    m = re.search(r"BrotliCreateHuffmanTree\(\s*&mut huffman_tree_histogram,\s*" + LIT + r",\s*" + LIT, body)
+    if not m:
+        raise GenError("BrotliStoreHuffmanTree: tree limit not found")
+    out.append("Definition cl_alphabet_size : N := %d." % parse_num(m.group(1), "cl alphabet"))
+    out.append("Definition cl_tree_limit : N := %d." % parse_num(m.group(2), "cl limit"))
+    body = fn_body(b, "BuildAndStoreHuffmanTree", "brotli_bit_stream.rs")
+    m = re.search(r"BrotliCreateHuffmanTree\(\s*histogram,\s*histogram_length,\s*" + LIT, body)
+    if not m:
+        raise GenError("BuildAndStoreHuffmanTree: tree limit not found")
+    out.append("Definition exact_tree_limit : N := %d." % parse_num(m.group(1), "exact limit"))
+    body = fn_body_any(b, "BrotliBuildAndStoreHuffmanTreeFast", "brotli_bit_stream.rs")
+    m = re.search(r"BrotliSetDepth\([^;]*?depth,\s*" + LIT + r"\s*\)", body, re.S)
+    if not m:
+        raise GenError("BrotliBuildAndStoreHuffmanTreeFast: depth limit not found")
+    out.append("Definition fast_tree_limit : N := %d." % parse_num(m.group(1), "fast limit"))
+    c = src("src/enc/constants.rs")
+    for n in ("kZeroRepsBits", "kZeroRepsDepth", "kNonZeroRepsBits", "kNonZeroRepsDepth", "kCodeLengthBits", "kCodeLengthDepth"):
+        out.append("Definition %s : list N := %s." % (n, coq_list(static_array(c, n, "constants.rs"))))
+    return out
+
+
+# ---------------------------------------------------------------------------------
+# section Header (C15): SanitizeParams, EncodeWindowBits, ensure_initialized, update_size_hint
+# (encode.rs); BrotliWriteMetadataMetaBlock, encode_base_128 (brotli_bit_stream.rs); VERSION
+# (lib.rs); parameter ids (parameters.rs); defaults of BrotliEncoderInitParams.
+# ---------------------------------------------------------------------------------
+WLIT = r"(?<![\w.])" + LIT + r"(?![\w.])"
+
+
+def fn_body_any(text, name, anchor):
+    """like fn_body, but also for functions whose generic parameter list contains `>` (closure
+    bounds): the body is taken from the first `{` after `fn name<` / `fn name(`."""
+    m = re.search(r"fn\s+" + re.escape(name) + r"\s*[<(]", text)
+    if not m:
+        raise GenError("%s: fn %s not found" % (anchor, name))
+    i = text.index("{", m.end())
+    depth = 0
+    for j in range(i, len(text)):
+        if text[j] == "{":
+            depth += 1
+        elif text[j] == "}":
+            depth -= 1
+            if depth == 0:
+                return text[m.start():j + 1]
+    raise GenError("%s: fn %s unbalanced" % (anchor, name))
+
+
+def body_after_signature(body):
+    """function text from the opening brace of the body (skips literals inside the signature)."""
+    return body[body.index("{"):]
+
+
+def gen_header():
+    out = []
+    e = src("src/enc/encode.rs")
+    b = src("src/enc/brotli_bit_stream.rs")
+    # --- SanitizeParams
+    body = body_after_signature(fn_body(e, "SanitizeParams", "encode.rs"))
+    m = re.search(r"params\.quality\s*=\s*min\(\s*" + LIT + r"\s*,\s*max\(\s*" + LIT + r"\s*,\s*params\.quality\s*\)\s*\)", body)
+    if not m:
+        raise GenError("SanitizeParams: quality clamp `min(K, max(K, params.quality))` not found")
+    out.append("Definition sanitize_qmax : Z := %d." % parse_num(m.group(1), "SanitizeParams qmax"))
+    out.append("Definition sanitize_qmin : Z := %d." % parse_num(m.group(2), "SanitizeParams qmin"))
+    cmps = re.findall(r"params\.lgwin\s*([<>]=?)\s*" + LIT, body)
+    if [c[0] for c in cmps] != ["<", ">", ">"]:
+        raise GenError("SanitizeParams: expected comparisons lgwin < K, lgwin > K, lgwin > K, found %r" % (cmps,))
+    out.append("Definition sanitize_lgwin_cmp : list Z := %s." % coq_zlist([parse_num(c[1], "SanitizeParams cmp") for c in cmps]))
+    asg = nums_in(body, r"params\.lgwin\s*=\s*" + LIT + r"\s*;", "SanitizeParams lgwin assignments", 3)
+    out.append("Definition sanitize_lgwin_set : list Z := %s." % coq_zlist(asg))
+    if not re.search(r"if\s+params\.catable\s*\{\s*params\.appendable\s*=\s*true\s*;\s*\}", body):
+        raise GenError("SanitizeParams: `if params.catable { params.appendable = true; }` not found")
+    # --- ensure_initialized: quality == 0 || quality == 1 -> lgwin = max(lgwin, 18)
+    body = body_after_signature(fn_body(e, "ensure_initialized", "encode.rs"))
+    m = re.search(r"if\s+self\.params\.quality\s*==\s*" + LIT + r"\s*\|\|\s*self\.params\.quality\s*==\s*" + LIT + r"\s*\{\s*lgwin\s*=\s*max\(\s*lgwin\s*,\s*" + LIT + r"\s*\)", body)
+    if not m:
+        raise GenError("ensure_initialized: `if quality == K || quality == K { lgwin = max(lgwin, K)` not found")
+    out.append("Definition fast_qualities : list Z := %s." % coq_zlist([parse_num(m.group(1), "ei"), parse_num(m.group(2), "ei")]))
+    out.append("Definition fast_min_lgwin : Z := %d." % parse_num(m.group(3), "ei"))
+    # --- EncodeWindowBits: every literal of the body, in order
+    body = body_after_signature(fn_body(e, "EncodeWindowBits", "encode.rs"))
+    lits = nums_in(body, WLIT, "EncodeWindowBits literals", 19)
+    out.append("Definition ewb_literals : list Z := %s." % coq_zlist(lits))
+    # --- compress_stream: which configurations take the quality-0/1 fast path
+    body = body_after_signature(fn_body_any(e, "compress_stream", "encode.rs"))
+    m = re.search(r"if\s*\(\s*self\.params\.quality\s*==\s*" + LIT + r"\s*\|\|\s*self\.params\.quality\s*==\s*" + LIT +
+                  r"\s*\)((?:\s*&&\s*!\s*self\.params\.\w+)*)\s*\{(?:\s*//[^\n]*\n)*\s*return\s+self\s*\.\s*compress_stream_fast", body)
+    if not m:
+        raise GenError("compress_stream: fast-path dispatch `if (quality == K || quality == K) && !flag.. { return self.compress_stream_fast` not found")
+    if [parse_num(m.group(1), "cs"), parse_num(m.group(2), "cs")] != [0, 1]:
+        raise GenError("compress_stream: fast-path qualities are not 0 and 1")
+    flags = re.findall(r"!\s*self\.params\.(\w+)", m.group(3))
+    for f in flags:
+        if f not in ("catable", "magic_number"):
+            raise GenError("compress_stream: fast-path dispatch tests an unmodelled flag %r" % f)
+    out.append("Definition fast_path_requires_not_catable : bool := %s." % ("true" if "catable" in flags else "false"))
+    out.append("Definition fast_path_requires_not_magic : bool := %s." % ("true" if "magic_number" in flags else "false"))
+    # --- update_size_hint
+    body = body_after_signature(fn_body(e, "update_size_hint", "encode.rs"))
+    sh = nums_in(body, r"let\s+limit\s*:\s*u32\s*=\s*1u32\s*<<\s*" + LIT, "update_size_hint limit", 1)
+    out.append("Definition size_hint_limit_log : N := %d." % sh[0])
+    # --- BrotliWriteMetadataMetaBlock
+    body = body_after_signature(fn_body(b, "BrotliWriteMetadataMetaBlock", "brotli_bit_stream.rs"))
+    pairs = re.findall(r"BrotliWriteBits\(\s*" + LIT + r"\s*,\s*" + LIT + r"\s*,\s*storage_ix", body)
+    if len(pairs) != 4:
+        raise GenError("BrotliWriteMetadataMetaBlock: expected 4 literal BrotliWriteBits calls, found %d" % len(pairs))
+    out.append("Definition meta_hdr_writes : list (N * N) := [%s]." % "; ".join(
+        "(%d%%N, %d%%N)" % (parse_num(a, "meta"), parse_num(v, "meta")) for a, v in pairs))
+    m = re.search(r"BrotliWriteBits\(\s*" + LIT + r"\s*,\s*" + LIT + r"\s*\+\s*size_hint_count\s+as\s+u64", body)
+    if not m:
+        raise GenError("BrotliWriteMetadataMetaBlock: length write `BrotliWriteBits(K, K + size_hint_count as u64` not found")
+    out.append("Definition meta_len_nbits : N := %d." % parse_num(m.group(1), "meta len"))
+    out.append("Definition meta_len_base : N := %d." % parse_num(m.group(2), "meta len"))
+    trip = re.findall(r"\[\s*" + LIT + r"\s*,\s*" + LIT + r"\s*,\s*" + LIT + r"\s*\]", body)
+    if len(trip) != 3:
+        raise GenError("BrotliWriteMetadataMetaBlock: expected 3 magic byte triples, found %d" % len(trip))
+    if not re.search(r"if\s+params\.catable\s*&&\s*!params\.use_dictionary\s*\{[^}]*\}\s*else\s+if\s+params\.appendable\s*\{", body):
+        raise GenError("BrotliWriteMetadataMetaBlock: mode selection `if catable && !use_dictionary {..} else if appendable {..}` not found")
+    for name, t in zip(("magic_catable", "magic_appendable", "magic_plain"), trip):
+        out.append("Definition %s : list N := %s." % (name, coq_list([parse_num(x, "magic") for x in t])))
+    n8 = len(re.findall(r"BrotliWriteBits\(\s*8u8\s*,\s*u64::from\(", body))
+    if n8 != 3:
+        raise GenError("BrotliWriteMetadataMetaBlock: expected 3 byte-wise writes (magic, VERSION, size hint), found %d" % n8)
+    # --- encode_base_128
+    out.append("Definition MAX_SIZE_ENCODING : N := %d." % const(b, "MAX_SIZE_ENCODING", "brotli_bit_stream.rs"))
+    body = body_after_signature(fn_body(b, "encode_base_128", "brotli_bit_stream.rs"))
+    m1 = nums_in(body, r"value\s*&\s*" + LIT, "encode_base_128 mask", 1)
+    m2 = nums_in(body, r"value\s*>>=\s*" + LIT, "encode_base_128 shift", 1)
+    m3 = nums_in(body, r"\|=\s*" + LIT, "encode_base_128 continuation bit", 1)
+    out.append("Definition b128_mask : N := %d." % m1[0])
+    out.append("Definition b128_shift : N := %d." % m2[0])
+    out.append("Definition b128_cont : N := %d." % m3[0])
+    out.append("Definition VERSION : N := %d." % const(src("src/lib.rs"), "VERSION", "lib.rs"))
+    # --- parameter ids
+    pr = src("src/enc/parameters.rs")
+    for n in ("BROTLI_PARAM_QUALITY", "BROTLI_PARAM_LGWIN", "BROTLI_PARAM_SIZE_HINT", "BROTLI_PARAM_LARGE_WINDOW",
+              "BROTLI_PARAM_CATABLE", "BROTLI_PARAM_APPENDABLE", "BROTLI_PARAM_MAGIC_NUMBER"):
+        m = re.search(r"\b" + n + r"\s*=\s*" + LIT + r"\s*,", pr)
+        if not m:
+            raise GenError("parameters.rs: %s not found" % n)
+        out.append("Definition %s : N := %d." % (n, parse_num(m.group(1), n)))
+    # --- defaults
+    body = body_after_signature(fn_body(e, "BrotliEncoderInitParams", "encode.rs"))
+    for fld, name in (("quality", "default_quality"), ("lgwin", "default_lgwin")):
+        v = nums_in(body, r"\b" + fld + r"\s*:\s*" + LIT + r"\s*,", "BrotliEncoderInitParams " + fld, 1)
+        out.append("Definition %s : Z := %d." % (name, v[0]))
+    for fld in ("large_window", "catable", "use_dictionary", "appendable", "magic_number"):
+        m = re.search(r"\b" + fld + r"\s*:\s*(true|false)\s*,", body)
+        if not m:
+            raise GenError("BrotliEncoderInitParams: %s not found" % fld)
+        out.append("Definition default_%s : bool := %s." % (fld, m.group(1)))
+    return out
+
+
+SECTIONS = {"Arith": gen_arith, "Header": gen_header}
+SECTIONS["Huffman"] = gen_huffman
+
+
+def gen_pool():
+    """C07: capacity of FixedQueue, the back-pressure comparisons of worker_pool.rs and the
+    initial WorkQueue, as the code has them now."""
+    out = []
+    fqs = src("src/enc/fixed_queue.rs")
+    out.append("Definition MAX_THREADS : N := %d." % const(fqs, "MAX_THREADS", "fixed_queue.rs"))
+    if not re.search(r"data\s*:\s*\[\s*Option<T>\s*;\s*MAX_THREADS\s*\]", fqs):
+        raise GenError("fixed_queue.rs: `data: [Option<T>; MAX_THREADS]` not found")
+    body = fn_body(fqs, "new", "fixed_queue.rs")
+    m = re.search(r"data\s*:\s*\[(.*?)\]", body, re.S)
+    if not m:
+        raise GenError("fixed_queue.rs: data initialiser of FixedQueue::new not found")
+    toks = [t.strip() for t in m.group(1).split(",") if t.strip()]
+    if any(t != "None" for t in toks):
+        raise GenError("fixed_queue.rs: FixedQueue::new initialises data with something other than None")
+    out.append("Definition FQ_NEW_NONES : N := %d." % len(toks))
+    for fld in ("size", "start"):
+        v = nums_in(body, r"\b" + fld + r"\s*:\s*" + LIT + r"\s*,", "FixedQueue::new " + fld, 1)
+        out.append("Definition FQ_NEW_%s : N := %d." % (fld.upper(), v[0]))
+    wp = src("src/enc/worker_pool.rs")
+    cmp_re = r"jobs\.size\(\)\s*\+\s*local_queue\.num_in_progress\s*\+\s*local_queue\.results\.size\(\)\s*(<=|<)\s*MAX_THREADS"
+    for fn, name in (("spawn", "spawn_admits_equal"), ("_push_job", "push_job_admits_equal")):
+        b = fn_body(wp, fn, "worker_pool.rs")
+        ms = re.findall(cmp_re, b)
+        if len(ms) != 1:
+            raise GenError("worker_pool.rs: back-pressure comparison of %s not found" % fn)
+        out.append("Definition %s : bool := %s." % (name, "true" if ms[0] == "<=" else "false"))
+    b = fn_body(wp, "default", "worker_pool.rs")
+    for fld in ("num_in_progress", "cur_work_id"):
+        v = nums_in(b, r"\b" + fld + r"\s*:\s*" + LIT + r"\s*,", "WorkQueue::default " + fld, 1)
+        out.append("Definition WQ_INIT_%s : N := %d." % (fld, v[0]))
+    for fld in ("immediate_shutdown", "shutdown"):
+        m = re.search(r"\b" + fld + r"\s*:\s*(true|false)\s*,", b)
+        if not m:
+            raise GenError("WorkQueue::default: %s not found" % fld)
+        out.append("Definition WQ_INIT_%s : bool := %s." % (fld, m.group(1)))
+    return out
+
+
+SECTIONS["Pool"] = gen_pool
+
+
+def gen_hashers():
+    """C19: constants of the match-index kinds (tools/gen_hashers.py)."""
+    import gen_hashers as _gh
+    return _gh.generate()
+
+
+SECTIONS["Hashers"] = gen_hashers
+
+
+def gen_io():
+    """C11: constants / structural anchors of the reader, writer and copy adapters (tools/gen_io.py)."""
+    import gen_io as _gi
+    return _gi.generate()
+
+
+SECTIONS["IO"] = gen_io
 
 
 def render(section):
